@@ -70,6 +70,17 @@ func probeUnboundedArray() (allocated uint64, err error) {
 var u32Pool = []uint32{0, 1, 2, 3, 4, 5, 6, 7, 8, 13, 17, 20, 22, 28, 63, 66, 70, 10001, 10004, 10006, 0x7fffffff, 0x80000000, 0xffffffff}
 var lenPool = []int{0, 1, 2, 3, 4, 5, 8, 16, 63, 64, 65, 112, 255, 256, 1000}
 
+// lengths around the bounds that occur in the protocol (255, 1024) and well
+// beyond them: unbounded strings and opaques must take any length
+var bigLenPool = []int{1023, 1024, 1025, 2000, 4095, 4096, 4097, 70000}
+
+func pickLen(r *Rng) int {
+	if r.Intn(8) == 0 {
+		return bigLenPool[r.Intn(len(bigLenPool))]
+	}
+	return lenPool[r.Intn(len(lenPool))]
+}
+
 func fillRandom(v reflect.Value, r *Rng, depth int) {
 	switch v.Kind() {
 	case reflect.Bool:
@@ -94,7 +105,7 @@ func fillRandom(v reflect.Value, r *Rng, depth int) {
 	case reflect.Int64:
 		v.SetInt(int64(r.U64()))
 	case reflect.String:
-		n := lenPool[r.Intn(len(lenPool))]
+		n := pickLen(r)
 		b := make([]byte, n)
 		for i := range b {
 			b[i] = byte('a' + r.Intn(26))
@@ -105,7 +116,7 @@ func fillRandom(v reflect.Value, r *Rng, depth int) {
 		v.SetString(string(b))
 	case reflect.Slice:
 		if v.Type().Elem().Kind() == reflect.Uint8 {
-			n := lenPool[r.Intn(len(lenPool))]
+			n := pickLen(r)
 			b := make([]byte, n)
 			for i := range b {
 				b[i] = byte(r.U64())
